@@ -6,7 +6,7 @@ import networkx as nx
 from .. import core, gen_graph as gg, gen_mol as gm, pipeline as pl, symx
 from .c01 import install_summaries, OPT_VARIANTS
 
-MOLS_Q = ['CCO', 'CC(C)C', 'C1CC1', 'CCCC', 'Cc1ccccc1', 'CC(=O)O', 'C=CC']
+MOLS_Q = ['CCO', 'CC(C)C', 'C1CC1', 'CCCC', 'Cc1ccccc1', 'CC(=O)O', 'C=CC', 'CSc1ccccc1C']
 MOLS_T = MOLS_Q + ['c1ccccc1', 'C1CCCCC1', 'CC(C)(C)C', 'OCCOCCO', 'CCc1ccccc1', 'C1CC1CO', 'C[N+](C)(C)C', 'CSC']
 
 
@@ -83,6 +83,10 @@ class C10(core.Prop):
         vs = [k for k, v in enumerate(pl.VARIANTS) if k and not str(v.get('entry', '')).startswith('graph')]
         for i, case in enumerate(list(out)[::(5 if q else 7)]):
             out.append(dict(case, variant=vs[i % len(vs)]))
+        # the label-insensitive convention (legacy=False) where it cannot create ambiguity: one shared pair and one ordinary cut
+        lg = [c for c in out if not c.get('variant') and len(c['cut']) == 2 and len(c['shared']) == 1]
+        for case in lg[::(3 if q else 2)]:
+            out.append(dict(case, legacy=False))
         for i in range(len(COARSE)):
             for ll in (0, 1):
                 if ll == 0 and '@m' in COARSE[i][0]:
@@ -108,7 +112,7 @@ class C10(core.Prop):
                     core.guard(pl.run_resolver, M, inp['disjoint'], last_all_atom=aa, how='all')]
         if shape.get('variant'):
             return core.guard(pl.run_variant, M, inp['text'], pl.VARIANTS[shape['variant']])
-        return core.guard(pl.run_resolver, M, inp['text'])
+        return core.guard(pl.run_resolver, M, inp['text'], legacy=shape.get('legacy', True))
 
     def _oracle_coarse(self, shape, inp, obs):
         over, disj = obs
